@@ -54,6 +54,10 @@ fn main() {
     }
     install_panic_hook();
     limit_address_space();
+    if ctx.breadcrumb.is_some() || ctx.only.is_some() {
+        // families that leave breadcrumbs (and every replay) bound every case by wall clock as a backstop against a spin
+        mcw::core::start_watchdog(std::env::var("MCW_CASE_WALL_S").ok().and_then(|v| v.parse().ok()).unwrap_or(60));
+    }
     let t0 = std::time::Instant::now();
     match ctx.prop.as_str() {
         "C01" => mcw::c01::run(&mut ctx),
